@@ -6,7 +6,7 @@
    blocks back to back in table order, free slots pointing at the end, one block per type); from a
    file that is merely [wf] the code can corrupt data — recorded finding F3b, see C03_wf_not_enough. *)
 From Model Require Import Base Str Fmt Container AFile GFile.
-From Proofs Require Import BaseFacts ContainerFacts ContainerProps GapFacts.
+From Proofs Require Import BaseFacts ContainerFacts ContainerProps GapFacts OrderedDec.
 Open Scope Z_scope.
 
 (* one call: the result is again compact, whatever the outcome; the number of slots never changes *)
@@ -80,6 +80,12 @@ Proof.
   cbn [s_n gconc]. apply g_run_n.
 Qed.
 Print Assumptions C03_history_ordered.
+
+(* the premise is decidable, and the decision procedure certifies its answer (it rebuilds the file and compares): the
+   correspondence check evaluates it on every initial file of the strata it calls ordered *)
+Theorem C03_orderedb_sound : forall s, orderedb s = true -> ordered s.
+Proof. exact orderedb_sound. Qed.
+Print Assumptions C03_orderedb_sound.
 
 (* non-vacuity: a 4-slot file of a writer that pads (3 bytes in front of the first block, 2 in front of the second,
    one more byte behind the data): remove the first block, add a new one — sound, and the second block's bytes moved
